@@ -114,6 +114,11 @@ func c01Texts(r *wr.Rendered) string {
 // existing sheet, nor push an @import behind other rules).
 func c01InjectInto(html, inj string) (string, bool) {
 	if i := strings.Index(html, "<style>"); i >= 0 {
+		if strings.Contains(html[:i], `"`) {
+			// an attribute before it (on <html>) may hold quotes of its own: the text "<style>" can then
+			// sit inside an attribute value, where the addition is not a style sheet
+			return html, false
+		}
 		return html[:i] + "<style>" + inj + "</style>" + html[i:], true
 	}
 	return html, false
@@ -169,7 +174,21 @@ func c01Check(ci interface{}) Verdict {
 	if a, b := c01Texts(r), c01Texts(r2); a != b {
 		return Verdict{Sig: cleanSigC01("skip:text-changes:" + c.Inject), Msg: fmt.Sprintf("adding the invalid/unsupported construct %q changes the drawn text\n before: %q\n after:  %q\n%s", c.Inject, a, b, c.Doc.HTML), Labels: labels}
 	}
-	if strings.Count(log2, "\n") <= strings.Count(log1, "\n") && c.Inject != "}" && c.Inject != "p{color:red" {
+	// the added construct is reported: some warning of the second render was not logged by the first
+	// (counting lines would be fooled by the valid part of an addition such as "p{color:red}}", which
+	// overrides declarations that were themselves reported)
+	seen := map[string]int{}
+	for _, l := range strings.Split(log1, "\n") {
+		seen[l]++
+	}
+	newWarning := false
+	for _, l := range strings.Split(log2, "\n") {
+		if seen[l] == 0 && strings.TrimSpace(l) != "" {
+			newWarning = true
+		}
+		seen[l]--
+	}
+	if !newWarning && c.Inject != "}" && c.Inject != "p{color:red" {
 		return Verdict{Sig: cleanSigC01("skip:no-warning:" + c.Inject), Msg: fmt.Sprintf("the invalid/unsupported construct %q is skipped without a logged warning\n%s", c.Inject, c.Doc.HTML), Labels: labels}
 	}
 	return Verdict{NonTrivial: nElems >= 3, Labels: labels}
